@@ -3,7 +3,11 @@ PROP = dict(
         tie_coq=["Properties/TieC05.v"],
         workloads=[
             dict(name="amm-random", go_test="TestC05", runner="C05",
-                 env=dict(quick=dict(VERIF_CASES=4000), thorough=dict(VERIF_CASES=40000))),
+                 env=dict(quick=dict(VERIF_CASES=3000), thorough=dict(VERIF_CASES=40000))),
+            dict(name="keeper-orders", go_test="TestC05Keeper", runner="C05-keeper",
+                 env=dict(quick=dict(VERIF_CASES=8), thorough=dict(VERIF_CASES=200))),
+            dict(name="keeper-f1", go_test="TestC05KeeperHunt", runner="C05-keeper",
+                 env=dict(quick=dict(VERIF_CASES=3), thorough=dict(VERIF_CASES=40))),
             dict(name="amm-exhaustive", go_test="TestC05Exhaustive", runner="C05", tiers=("thorough",),
                  env=dict(thorough=dict(VERIF_C05_EXH=2))),
             dict(name="amm-exhaustive3", go_test="TestC05Exhaustive", runner="C05", tiers=("thorough",),
@@ -15,8 +19,21 @@ PROP = dict(
              "entry points as in keeper/swap.go:672: OrderBook.Match(lastPrice) (55%), FindMatchPrice(book view + pool views)+pool orders at the match price+"
              "MatchAtSinglePrice (15%), MatchAtSinglePrice at a tick (10%), SortOrders+DistributeOrderAmountToOrders on one tick's orders (20%); "
              "6 fixed regression cases first (the C05-F1 witness at three levels). non-trivial = the call produced at least one fill; distinct by digest "
+<<<<<<< HEAD
              "of (entry point, orders, price). thorough adds every book with <=2 orders per side (and every 397th with <=3), amounts 1..6, four "
              "neighbouring ticks 0.48-0.51, against each tick as last price",
+=======
+             "of (entry point, orders, price). thorough adds every book with <=2 orders per side (and every 97th with <=3), amounts 1..6, four "
+             "neighbouring ticks 0.48-0.51, against each tick as last price. keeper-orders: case = the C07 order history through the REAL msg server / EndBlocker (pools on 15% of the pairs), 85% of the "
+             "cases with the order-life scenario (a long-lived order partially matched in its first batch, the last price moved past it, then matched again tick by tick by ladders of small counter orders "
+             "in later batches); before every EndBlocker the book of every pair is observed through the real types.NewUserOrder and keeper.Match (pool orders included) and replayed on AMM.run_match / "
+             "run_single_price: every order's (open, paid, received), matched flag, match price, quoteCoinDiff are diffed, the holds_C05_* predicates judge the implementation's book, and holds_C05_life judges "
+             "every stored order's fill against its record: payment <= REMAINING offer coin, matched <= open amount; non-trivial = some order was filled and a block boundary was crossed. keeper-f1: the known finding C05-F1 THROUGH THE KEEPER by a directed search: pairs at prices 0.0005-0.01 with a basic and two "
+             "ranged pools that the creator shrinks by withdrawals until their orders on a tick are worth a few quote units; before each batch the search takes the ticks on which two or more pools have "
+             "an order and tries, on a throw-away cache context through the real keeper.Match, single limit orders that consume such a tick only in part; the first order whose batch does not conserve "
+             "the base coin is placed for real and the real EndBlocker runs on it (C05-F1: holds_C05_base fails inside kf_C05_1; C05-F2: when the escrow cannot cover the deficit the app's batch is rolled "
+             "back at every following block - endblock_batch_executed fails inside kf_C05_2_stall; the runner hands the engine's fills to the model, which rolls back as well)",
+>>>>>>> liq2
         modelled=["sdk.Int/sdk.Dec 256/315-bit overflow panics (not modelled; amounts < 2^100)",
                   "FindMatchPrice and the pool order generators PoolBuyOrders/PoolSellOrders are NOT modelled: their outputs (match price, pool orders) "
                   "are taken from the implementation as inputs; the property predicates do not depend on how the price or the orders were chosen",
@@ -30,7 +47,8 @@ MANIFEST = dict(
     level_text="Executable Gallina model of the whole matching engine (MatchableAmount, FillOrder, batch grouping, stable sort, "
                "DistributeOrderAmountToOrders with its retry, DistributeOrderAmountToTick, FindMatchableAmountAtSinglePrice, MatchAtSinglePrice, "
                "PriceDirection, Match) with proofs over all prices/amounts/books; base-coin conservation is proved outside the known-finding class "
-               "and refuted inside it by a witness that is replayed on the real package. The model is tied to /repo by a differential run of the "
+               "and refuted inside it by a witness that is replayed on the real package. Through the keeper: for every stored order handed to the engine as NewUserOrder builds it (offer bound = REMAINING offer "
+               "coin) the fill is within the remaining offer coin and the open amount, in any book; a counter-example shows that the original offer coin as the bound lets a carried-over order overpay. The model is tied to /repo by a differential run of the "
                "real amm package on every check and the extracted property predicates judge the implementation's outputs.",
     design_ref="DESIGN.md section 4 C05",
     level_note="Trusted: Coq kernel, extraction (ExtrOcamlBasic), OCaml runner, Go harness. FindMatchPrice and pool order generation enter as inputs. "
